@@ -24,7 +24,10 @@ RULE = ("one run = 3-5 components of all four categories, 60-200 events: a data 
         "sequence number in every metric field) or a subscription request (new (namespace, metric), exact duplicate, unknown "
         "component id), separated by no yield / sleep(0) / small gaps / bursts; device clocks increasing / coarse (equal stamps) / "
         "stepping back; API down at drawn instants (actor restart); non-trivial = a subscription arrived while "
-        "the component was already streaming (task hand-over); distinct = abstract digest of (event kind, component) sequence")
+        "the component was already streaming (task hand-over); distinct = abstract digest of (event kind, component) sequence"
+        " All metrics of every category are requested, every message field carries its own offset; the API stream"
+        " opening takes a drawn time in 30% of runs; an actor restart that no injected API failure explains is a"
+        " violation.")
 QUICK_RUNS = 4000
 THOROUGH_RUNS = 250_000
 EXPECT_PROBES = ["subscription_during_stream", "duplicate_request", "unknown_component_request", "back_to_back_subscriptions",
